@@ -99,6 +99,9 @@ func newWindow(c Case) (window.Window, error) {
 // 2^53, where a detour through float64 moves a timestamp by up to 128 ns
 var tsShift int64
 
+// tsMul: TIMEUNIT of the running case in ns (1 unless cfg tsunit > 1), for the time.Time-typed timestamps
+var tsMul int64 = 1
+
 func rowOf(id string, ts string, key string) map[string]interface{} {
 	n, _ := strconv.ParseInt(id, 10, 64)
 	r := map[string]interface{}{"id": n}
@@ -122,7 +125,7 @@ func rowOf(id string, ts string, key string) map[string]interface{} {
 		r["ts"] = strconv.FormatInt(t+tsShift, 10)
 	case strings.HasPrefix(ts, "t"):
 		t, _ := strconv.ParseInt(ts[1:], 10, 64)
-		r["ts"] = time.Unix(0, t+tsShift)
+		r["ts"] = time.Unix(0, (t+tsShift)*tsMul)
 	default:
 		t, _ := strconv.ParseInt(ts, 10, 64)
 		r["ts"] = t + tsShift
@@ -136,13 +139,18 @@ func rowOf(id string, ts string, key string) map[string]interface{} {
 // bigEpoch: in one case out of eight the timestamps move to a real nanosecond epoch (1.699e18, above 2^53) and the
 // float64-typed ones become decimal strings (a float64 cannot carry such a value exactly, whoever converts it).
 func bigEpoch(rng *rand.Rand, c *Case) {
-	if rng.Intn(8) != 0 {
+	pick := rng.Intn(8)
+	if pick > 1 {
 		return
 	}
 	for _, l := range c.Cfg {
 		if l[0] == "tsunit" || l[0] == "idle" {
 			return
 		}
+	}
+	if pick == 1 {
+		msUnit(c)
+		return
 	}
 	fix := func(tok string) string {
 		if strings.HasPrefix(tok, "f") || strings.HasPrefix(tok, "h") || strings.HasPrefix(tok, "q") {
@@ -166,6 +174,44 @@ func bigEpoch(rng *rand.Rand, c *Case) {
 	}
 	c.Cfg = append(c.Cfg, []string{"tsadd", "1699000000000000000"})
 	c.Stat = append(c.Stat, "ns-epoch-timestamps")
+}
+
+// msUnit: the case as it stands, read in milliseconds: TIMEUNIT becomes 1 ms (cfg tsunit 1000000), every duration of
+// the configuration is multiplied by 10^6 and the timestamp tokens (unchanged) move to a millisecond epoch of 2023
+// (cfg tsadd). float64 timestamps then carry milliseconds (exact, below 2^53), with or without a fractional part.
+func msUnit(c *Case) {
+	const mul = 1_000_000
+	for _, l := range c.Cfg {
+		switch l[0] {
+		case "size", "slide", "ooo", "late":
+			if v, err := strconv.ParseInt(l[1], 10, 64); err != nil || v > 1_000_000_000_000 {
+				return
+			}
+		}
+	}
+	for _, op := range c.Ops {
+		for _, tok := range op[1:] {
+			if strings.Contains(tok, "@") {
+				return // window-relative gap rows are written in nanoseconds
+			}
+			digits := strings.TrimLeft(tok, "fshqt")
+			if p := strings.Split(tok, ":"); len(p) >= 3 {
+				digits = strings.TrimLeft(p[2], "fshqt")
+			}
+			if v, err := strconv.ParseInt(digits, 10, 64); err == nil && v > 2_000_000_000_000_000 {
+				return // far-future rows would leave int64 after the multiplication
+			}
+		}
+	}
+	for _, l := range c.Cfg {
+		switch l[0] {
+		case "size", "slide", "ooo", "late":
+			v, _ := strconv.ParseInt(l[1], 10, 64)
+			l[1] = itoa(v * mul)
+		}
+	}
+	c.Cfg = append(c.Cfg, []string{"tsunit", itoa(mul)}, []string{"tsadd", itoa(1_700_000_000_000 - tsBase)})
+	c.Stat = append(c.Stat, "ms-epoch-timestamps")
 }
 
 func emissionLine(kind string, rows []types.Row, late bool) []string {
@@ -213,7 +259,11 @@ func execWindow(c Case) [][][]string {
 		setCfg(&c, "tsadd", itoa(time.Now().UnixNano()-tsBase-1_800_000_000_000))
 	}
 	tsShift = cfgInt(c, "tsadd", 0)
-	defer func() { tsShift = 0 }()
+	tsMul = 1
+	if u := cfgInt(c, "tsunit", 1); u > 1 {
+		tsMul = u // a time.Time value carries the instant itself: token × TIMEUNIT
+	}
+	defer func() { tsShift, tsMul = 0, 1 }()
 	w, err := newWindow(c)
 	if err != nil {
 		return [][][]string{{{"error", hx(err.Error())}}}
